@@ -28,10 +28,11 @@ Definition underscore : ascii := "_"%char.
 Definition dot : ascii := "."%char.
 Definition colon : ascii := ":"%char.
 
-(** buildTagOk. [None] is the Go run-time panic of [s[0]] on an empty string. *)
+(** buildTagOk. [None] would be a Go run-time panic (none is left since the repair of the
+    empty-tag case: an empty tag never matches). *)
 Definition y_tag_ok (c : ctx) (t : str) : option bool :=
   match t with
-  | [] => None
+  | [] => Some false
   | a :: r =>
       let neg := Ascii.eqb a bang in
       let t' := if neg then r else t in
@@ -78,7 +79,7 @@ Definition plus_build_sp : str := s "+build ".
 
 Definition y_line_ok (c : ctx) (line : str) : option bool :=
   if (length line <? 7) || negb (has_prefix plus_build_sp line) then Some true
-  else y_or c (split space (trim_space (skipn 6 line))).
+  else y_or c (fields (skipn 6 line)).
 
 (** AND over the lines of all comment groups, leaving at the first false line. *)
 Fixpoint y_lines_ok (c : ctx) (ls : list str) : option bool :=
